@@ -84,10 +84,18 @@ form = %(form)r
 ops = %(ops)s
 mult = %(mult)s
 Ks = sympy.symbols("K0:%%d" %% (len(ops) + 1), positive=True)
-es = [Equilibrium(dict(r), dict(p), K) for (r, p), K in zip(ops, Ks)]
+kind = %(kind)r
+from collections import OrderedDict
+from chempy.util.arithmeticdict import ArithmeticDict
+mk = {"dict": dict, "ordered": lambda d: OrderedDict(sorted(dict(d).items(), reverse=True)),
+      "adict": lambda d: ArithmeticDict(int, sorted(dict(d).items(), reverse=True))}[kind]
+es = [Equilibrium(mk(r), mk(p), K) for (r, p), K in zip(ops, Ks)]
+before = [(dict(e.reac), dict(e.prod)) for e in es]
 n, m = mult
 try:
     if form == "n*e1+m*e2": res = n * es[0] + m * es[1]; comb = [n, m]
+    elif form == "e1+e2": res = es[0] + es[1]; comb = [1, 1]
+    elif form == "e1-e2": res = es[0] - es[1]; comb = [1, -1]
     elif form == "n*e1-e2": res = n * es[0] - es[1]; comb = [n, -1]
     elif form == "e1*n": res = es[0] * n; comb = [n]
     elif form == "-e1": res = -es[0]; comb = [-1]
@@ -104,6 +112,7 @@ if res is None:
     ok = all(v == 0 for v in exp) or 0 in comb
     print("raised", err, "expected net", exp); sys.exit(0 if ok else 1)
 bad = []
+if [(dict(e.reac), dict(e.prod)) for e in es] != before: bad.append("an operand was changed by the operation: %%s -> %%s" %% (before, [(dict(e.reac), dict(e.prod)) for e in es]))
 if list(res.net_stoich(keys)) != exp: bad.append("net stoichiometry %%s, expected %%s" %% (res.net_stoich(keys), exp))
 if any(v <= 0 for v in list(res.reac.values()) + list(res.prod.values())): bad.append("non-positive coefficient listed")
 if form not in ("e1*n", "-e1", "n*e1;m*e1") and set(res.reac) & set(res.prod): bad.append("species on both sides: %%s" %% (set(res.reac) & set(res.prod)))
@@ -115,11 +124,14 @@ sys.exit(1 if bad else 0)
 '''
 
 
-def task_arith(form, shape_sets):
+def task_arith(form, shape_sets, kind="dict"):
+    from collections import OrderedDict
     from chempy import Equilibrium
+    from chempy.util.arithmeticdict import ArithmeticDict
     import chempy.chemistry as cc
 
     cc.int = sym_int
+    mutated = []
     res = dict(engine="Z", functions=[env.describe(Equilibrium.__rmul__), env.describe(Equilibrium.__add__), env.describe(Equilibrium.__sub__),
                                       env.describe(Equilibrium.__neg__), env.describe(Equilibrium.__mul__)],
                obligations=0, discharged=0, violations=[], inconclusive=[], queries=0, paths=0, solver_s=0.0,
@@ -138,6 +150,10 @@ def task_arith(form, shape_sets):
             comb = [n]
         elif form == "-e1":
             comb = [-1]
+        elif form == "e1+e2":
+            comb = [1, 1]
+        elif form == "e1-e2":
+            comb = [1, -1]
         elif form == "n*e1;m*e1":
             comb = [m]
         elif form == "-e1;reparam;e2-e1":
@@ -149,9 +165,32 @@ def task_arith(form, shape_sets):
             kidx = [2, 1]
 
         def fn():
-            es = [Equilibrium(dict(r), dict(p), KVal({i: 1})) for i, (r, p) in enumerate(ops)]
+            if kind == "dict":
+                es = [Equilibrium(dict(r), dict(p), KVal({i: 1})) for i, (r, p) in enumerate(ops)]
+            elif kind == "ordered":
+                # OrderedDict stoichiometries in REVERSED key order (stored as given, not re-sorted)
+                es = [Equilibrium(OrderedDict(sorted(r.items(), reverse=True)), OrderedDict(sorted(p.items(), reverse=True)), KVal({i: 1}))
+                      for i, (r, p) in enumerate(ops)]
+            else:
+                # ArithmeticDict stoichiometries (what `2*ArithmeticDict(int, {...})` style construction yields)
+                es = [Equilibrium(ArithmeticDict(int, sorted(r.items(), reverse=True)), ArithmeticDict(int, sorted(p.items(), reverse=True)), KVal({i: 1}))
+                      for i, (r, p) in enumerate(ops)]
+            snapshot = [(dict(e.reac), dict(e.prod)) for e in es]
+            try:
+                return _combine(es)
+            finally:
+                # operands are values: no operation may change them
+                del mutated[:]
+                for e, (r0, p0) in zip(es, snapshot):
+                    mutated.append((dict(e.reac), dict(e.prod), r0, p0))
+
+        def _combine(es):
             if form == "n*e1+m*e2":
                 return n * es[0] + m * es[1]
+            if form == "e1+e2":
+                return es[0] + es[1]
+            if form == "e1-e2":
+                return es[0] - es[1]
             if form == "n*e1-e2":
                 return n * es[0] - es[1]
             if form == "e1*n":
@@ -177,6 +216,11 @@ def task_arith(form, shape_sets):
         exp = {k: sum(c * nt[k] for c, nt in zip(comb, nets)) for k in KEYS}
 
         def goal(p, twin=False):
+            same = []
+            for ra, pa, r0, p0 in mutated:
+                if set(ra) != set(r0) or set(pa) != set(p0):
+                    return False
+                same += [eq_term(ra[k], r0[k]) for k in r0] + [eq_term(pa[k], p0[k]) for k in p0]
             if p.kind == "exc":
                 if isinstance(p.value, ValueError) and "net stoichiometry change" in str(p.value):
                     zero_mult = [eq_term(c, 0) for c in comb if isinstance(c, SymNum)]
@@ -184,10 +228,10 @@ def task_arith(form, shape_sets):
                     inter = []
                     if form == "(n*e1+e2)-m*e3":
                         inter.append(z3.And(*[eq_term(n * nets[0][k] + nets[1][k], 0) for k in KEYS]))
-                    return z3.Or(*(zero_mult + [allzero] + inter))
+                    return z3.And(z3.Or(*(zero_mult + [allzero] + inter)), *same)
                 return False
             r = p.value
-            conds = []
+            conds = list(same)
             for k in KEYS:
                 got = r.prod.get(k, 0) - r.reac.get(k, 0)
                 conds.append(eq_term(got, exp[k] if not twin else exp[k] + 1))
@@ -215,9 +259,9 @@ def task_arith(form, shape_sets):
         for p, mdl, g in o.failed[:1]:
             cops = [(concretize(mdl, r), concretize(mdl, pr)) for r, pr in ops]
             mv = (model_value(mdl, n.t), model_value(mdl, m.t))
-            res["violations"].append(dict(key="arith:%s:%s" % (form, p.kind), soft=wrapper_exc(p.value),
+            res["violations"].append(dict(key="arith:%s:%s:%s" % (form, kind, p.kind), soft=wrapper_exc(p.value),
                                           desc="%s with operands %s multipliers %s -> %r" % (form, cops, mv, p.value),
-                                          replay_src=REPLAY % dict(form=form, ops=pyrepr(cops), mult=pyrepr(mv))))
+                                          replay_src=REPLAY % dict(form=form, ops=pyrepr(cops), mult=pyrepr(mv), kind=kind)))
         if tw is None:
             ot = explore_and_prove(fn, assum, lambda q: goal(q, True), max_paths=60000, deadline_s=60, max_fail=1)
             tw = twin_verdict(ot)
@@ -443,6 +487,13 @@ def tasks(tier, seed):
         ts.append(dict(id="C11.chain3.%02d" % i, fn="task_arith", kwargs=dict(form="(n*e1+e2)-m*e3", shape_sets=triples[i::4]), timeout=2400))
     ts.append(dict(id="C11.scale", fn="task_arith", kwargs=dict(form="e1*n", shape_sets=[[s] for s in names]), timeout=600))
     ts.append(dict(id="C11.neg", fn="task_arith", kwargs=dict(form="-e1", shape_sets=[[s] for s in names]), timeout=600))
+    # operands whose stoichiometries are OrderedDicts in reversed key order / ArithmeticDicts (stored as given): sums without scaling, scaled
+    # sums and the same object scaled twice; no operation may change an operand
+    for kind in ("ordered", "adict"):
+        ts.append(dict(id="C11.%s.e1+e2" % kind, fn="task_arith", kwargs=dict(form="e1+e2", shape_sets=pairs[::3], kind=kind), timeout=900))
+        ts.append(dict(id="C11.%s.e1-e2" % kind, fn="task_arith", kwargs=dict(form="e1-e2", shape_sets=pairs[1::3], kind=kind), timeout=900))
+        ts.append(dict(id="C11.%s.scale_twice" % kind, fn="task_arith", kwargs=dict(form="n*e1;m*e1", shape_sets=[[s_] for s_ in names], kind=kind), timeout=900))
+        ts.append(dict(id="C11.%s.n*e1+m*e2" % kind, fn="task_arith", kwargs=dict(form="n*e1+m*e2", shape_sets=pairs[2::12], kind=kind), timeout=900))
     ts.append(dict(id="C11.scale_twice", fn="task_arith", kwargs=dict(form="n*e1;m*e1", shape_sets=[[s_] for s_ in names]), timeout=900))
     ts.append(dict(id="C11.reparam", fn="task_arith", kwargs=dict(form="-e1;reparam;e2-e1", shape_sets=pairs[:: (6 if tier == "quick" else 1)]), timeout=900))
     ts.append(dict(id="C11.eliminate_cancel", fn="task_eliminate", kwargs=dict(maxc=6 if tier == "quick" else 9), timeout=900))
